@@ -428,7 +428,7 @@ def same_answer(op, a, b):
     return False
 
 
-PARSE_PROBE_NUM = "ff7f0000000000000000000000"      # negative base-256 number whose sign bit is shifted out (D26 of C04)
+PARSE_PROBE_NUM = "ff00ff80007f64e0ff"      # negative base-256 number (9 digits) whose top byte stops being 0xFF: the 1.2.0 guard lets it wrap, 9ba238f refuses it
 
 
 def check_parsers(ctx, stats):
@@ -436,7 +436,7 @@ def check_parsers(ctx, stats):
     exe = ctx.cc("h_c07_parse", ["h_c07_parse.c"], flags=["-I%s" % (vlib.REPO / "bin" / "gensquashfs" / "src")],
                  libs=[str(lib)] + vlib.CODEC_LIBS + (["-lselinux"] if os.path.exists("/usr/include/selinux/selinux.h") else []))
     # which variant of read_binary / read_pax_header does the working tree have?
-    probe = "num %%d %s 13" % PARSE_PROBE_NUM
+    probe = "num %%d %s 9" % PARSE_PROBE_NUM
     impl, _ = run_harness(ctx, exe, [probe % 0], timeout=120)
     m0, m1 = ctx.driver(["c07"], (probe % 0) + "\n" + (probe % 1) + "\n")
     numfx = 1 if (impl and impl[0] == m1 and m0 != m1) else 0
